@@ -154,3 +154,79 @@ fn k_convert_from_gearsets_positions() {
     kani::cover!(true, "reachable");
     core::mem::forget(out);
 }
+
+//@use_common
+
+//@unit props=C17 label=B tier=quick native=1 fn=gearsets::GearSets::from_existing bound="by execution: resources/tests/gearsets/simple.dat (45221 bytes): every truncation and 7 single-byte corruptions at each of the first 1200 positions, the last 64 and every 53rd position in between"
+//@desc damaged gear-set files (truncated, any header or content byte damaged) yield None or a value, never a panic
+#[test]
+fn native_gearsets_damaged_nopanic() {
+    let f = |b: &[u8]| { let _ = GearSets::from_existing(b); };
+    let cases = native_sweep(&native_resource("gearsets/simple.dat"), 1200, 53, &f);
+    println!("NATIVE native_gearsets_damaged_nopanic cases={cases}");
+}
+
+fn ngs_set(i: usize, tag: &str) -> GearSet {
+    let mut slots = HashMap::new();
+    slots.insert(GearSlotType::try_from(i % 14).unwrap(), GearSlot { id: 5269 + i as u32, glamour_id: if i % 2 == 0 { Some(77 + i as u32) } else { None }, unknown1: 0, unknown2: 0, unknown3: 0, unknown4: 0, unknown5: 0 });
+    GearSet { index: i as u8, name: format!("{tag}{i}"), unknown1: 0, slots, facewear: if i % 3 == 0 { Some(9000 + i as u32) } else { None } }
+}
+
+//@unit props=C09 label=B tier=quick native=1 fn=gearsets::GearSets::{write_to_buffer,from_existing},gearsets::{convert_to_gearsets,convert_from_gearsets,convert_to_slots,convert_from_slots} bound="by execution: 100-entry tables with one set at each position 0..99, with two sets at (p, (p+37) mod 100), and the full table"
+//@desc a written gear-set file is the 17-byte header followed by 4 + 100 x 452 content bytes XORed with 0x73; the set at table position p is stored in record p (index byte, name at +1, slot s at +56+28s with the item id + 1000000) and every position, name, slot item, glamour and facewear reads back where it was put; empty positions read back empty
+#[test]
+fn native_gearsets_positions() {
+    let mut cases = 0u64;
+    let mut tables: Vec<Vec<Option<GearSet>>> = vec![];
+    for p in 0..100usize {
+        let mut t: Vec<Option<GearSet>> = vec![None; 100];
+        t[p] = Some(ngs_set(p, "set"));
+        tables.push(t.clone());
+        t[(p + 37) % 100] = Some(ngs_set((p + 37) % 100, "other"));
+        tables.push(t);
+    }
+    tables.push((0..100).map(|p| Some(ngs_set(p, "all"))).collect());
+    for t in tables.iter() {
+        let gs = GearSets { unknown1: 0, current_gearset: 3, unknown3: 0, gearsets: t.clone() };
+        let buf = gs.write_to_buffer().expect("write");
+        assert_eq!(buf.len(), 17 + 4 + 100 * 452, "file length");
+        let dec: Vec<u8> = buf[17..].iter().map(|b| *b ^ 0x73).collect();
+        assert_eq!(dec[1], 3, "current gear set");
+        for p in 0..100usize {
+            let r = &dec[4 + 452 * p..4 + 452 * (p + 1)];
+            match &t[p] {
+                Some(s) => {
+                    assert_eq!(r[0], s.index, "index byte of record {p}");
+                    assert_eq!(&r[1..1 + s.name.len()], s.name.as_bytes(), "name of record {p}");
+                    assert_eq!(r[1 + s.name.len()], 0, "name terminator of record {p}");
+                    for (ty, slot) in s.slots.iter() {
+                        let o = 56 + 28 * (ty.clone() as usize);
+                        assert_eq!(u32::from_le_bytes(r[o..o + 4].try_into().unwrap()), slot.id + 1_000_000, "item id of slot in record {p}");
+                        assert_eq!(u32::from_le_bytes(r[o + 4..o + 8].try_into().unwrap()), slot.glamour_id.unwrap_or(0), "glamour id of slot in record {p}");
+                    }
+                    assert_eq!(u32::from_le_bytes(r[448..452].try_into().unwrap()), s.facewear.unwrap_or(0), "facewear of record {p}");
+                }
+                None => assert!(r[1] == 0, "record {p} of an empty position has an empty name"),
+            }
+        }
+        let back = GearSets::from_existing(&buf).expect("a written file parses");
+        assert_eq!(back.gearsets.len(), 100);
+        assert_eq!(back.current_gearset, 3);
+        for p in 0..100usize {
+            match (&t[p], &back.gearsets[p]) {
+                (None, None) => {}
+                (Some(a), Some(b)) => {
+                    assert_eq!((a.index, &a.name, a.facewear), (b.index, &b.name, b.facewear), "position {p}");
+                    assert_eq!(a.slots.len(), b.slots.len(), "slot count at position {p}");
+                    for (ty, sa) in a.slots.iter() {
+                        let sb = b.slots.get(ty).expect("slot type read back");
+                        assert_eq!((sa.id, sa.glamour_id), (sb.id, sb.glamour_id), "slot at position {p}");
+                    }
+                }
+                _ => panic!("position {p}: occupied/empty state changed by the round trip"),
+            }
+        }
+        cases += 1;
+    }
+    println!("NATIVE native_gearsets_positions cases={cases}");
+}
